@@ -182,6 +182,7 @@ def search(ctx):
         dist['segment/' + fam] = dist.get('segment/' + fam, 0) + 1
         if gen.nondegenerate(s): seen.add((gen.seg_key(s), t))
         f = check_segment(s, t)
+        if not f and rng.random() < 0.2: f = gen.freshness(rng, s, {'area': lambda x: x.area})
         if len(samples) < 1: samples.append({'segment': gen.seg_json(s), 't': t})
         if f: fails.append({'class': 'C10-segment', 'what': f[0], 'input': {'segment': gen.seg_json(s), 't': t}, 'observed': f, 'expected': 'area = integral of y dx; additive; negated by reversal; elevation-invariant'})
     for _ in range(ctx.n(70, 2000)):
